@@ -5,6 +5,7 @@ package core2
 import (
 	"fmt"
 	"net"
+	"runtime"
 	"strings"
 	"testing"
 	"time"
@@ -19,7 +20,7 @@ import (
 
 // C36 — name conflicts are settled by a strict majority of valid replies.
 //
-// One node with conflict resolution on and a query timeout of 30-80 ms.  The
+// One node with conflict resolution on and a query timeout of 40-100 ms.  The
 // check calls the node's conflict delegate (existing = the node itself), finds
 // the conflict query through VerifOpenQueries and injects a generated multiset
 // of replies through the memberlist delegate before the deadline.  After the
@@ -41,7 +42,7 @@ type c36Case struct {
 }
 
 func genC36(t *rapid.T) c36Case {
-	c := c36Case{Mult: rapid.IntRange(6, 16).Draw(t, "mult")}
+	c := c36Case{Mult: rapid.IntRange(8, 20).Draw(t, "mult")}
 	n := rapid.IntRange(0, 9).Draw(t, "n")
 	ownBias := rapid.SampledFrom([][]int{{0, 0, 1, 2}, {0, 1, 2, 2, 3}, {0, 0, 0, 1, 2}}).Draw(t, "bias")
 	for i := 0; i < n; i++ {
@@ -168,7 +169,10 @@ func bodyC36(c c36Case, x *vkit.Ctx) {
 		n.Delegate.NotifyMsg(mustEncode(serf.VerifMessageQueryResponseType, &serf.VerifMessageQueryResponse{
 			LTime: open[0].LTime, ID: open[0].ID, From: m.from, Payload: m.payload}))
 		// the response channel has room for one reply (one known member): let the resolver take it
-		time.Sleep(200 * time.Microsecond)
+		// (yielding spin: timer sleeps are too coarse on a loaded machine)
+		for t1 := time.Now(); time.Since(t1) < 100*time.Microsecond; {
+			runtime.Gosched()
+		}
 	}
 	if time.Since(t0) > timeout-3*time.Millisecond {
 		x.Inconclusive("replies could not be injected before the query deadline")
